@@ -129,6 +129,44 @@ func forEachStdCase(w *fw.W, o stdOpts, fn func(cs *world.Case, family string)) 
 			}
 		}
 	}
+	// RDALIAS: a call of each kind into each precompile with argument and return windows that overlap, coincide or are
+	// disjoint, optionally followed by a store into the argument window, then the return-data buffer is copied out:
+	// what a precompile hands back must be a value of its own, not a view of the caller's memory
+	if o.SstoreSeq {
+		type win struct{ inOff, inLen, outOff, outLen uint64 }
+		wins := []win{{0, 32, 1, 32}, {0, 32, 0, 32}, {0, 64, 32, 32}, {0, 32, 64, 32}, {0, 0, 0, 32}}
+		for _, f := range o.Forks {
+			if f < world.Byzantium {
+				continue
+			}
+			for pcAddr := byte(1); pcAddr <= 9; pcAddr++ {
+				for _, op := range []byte{asm.CALL, asm.CALLCODE, asm.DELEGATECALL, asm.STATICCALL} {
+					for wi, wn := range wins {
+						for _, late := range []bool{false, true} {
+							if !w.Mine() || w.Expired() {
+								continue
+							}
+							p := asm.New().Push32(gen.Pattern).Push(0).Op(asm.MSTORE)
+							p.Push32(common.HexToHash("0xf1f2f3f4f5f6f7f8f9fafbfcfdfeff00f1f2f3f4f5f6f7f8f9fafbfcfdfeff01")).Push(32).Op(asm.MSTORE)
+							p.Push(wn.outLen).Push(wn.outOff).Push(wn.inLen).Push(wn.inOff)
+							if op == asm.CALL || op == asm.CALLCODE {
+								p.Push(0)
+							}
+							p.PushAddr(common.BytesToAddress([]byte{pcAddr})).Push(150000).Op(op, asm.POP)
+							if late {
+								p.Push32(common.HexToHash("0xe0e0e0e0e0e0e0e0e0e0e0e0e0e0e0e0e0e0e0e0e0e0e0e0e0e0e0e0e0e0e0e0")).Push(0).Op(asm.MSTORE)
+							}
+							p.Op(asm.RETURNDATASIZE).Push(0).Push(0x100).Op(asm.RETURNDATACOPY)
+							p.Push(96).Push(0x100).Op(asm.RETURN)
+							cs := gen.StdCase(f, p.Bytes(), "call", 400000)
+							cs.Note = fmt.Sprintf("RDALIAS precompile=%d kind=%#x windows=%d store-afterwards=%v", pcAddr, op, wi, late)
+							fn(cs, "RDALIAS")
+						}
+					}
+				}
+			}
+		}
+	}
 	// CREATESEQ: every sequence of up to 2 (thorough: 3) creation instructions over {CREATE, CREATE2 with salt 1 or 2} x
 	// init code {empty, STOP, returns one byte of code, REVERT, SELFDESTRUCT}: address derivation, nonce bumps,
 	// address collisions with accounts that have a nonce but no code / code / nothing left, re-creation after a failure
